@@ -2203,6 +2203,10 @@ unsched(EV_P_ ev_periodic *w, int UNUSED(revents))
 	ECHS_NOTI_LOG("taking event off of schedule");
 	add_chkpnt(echs_task_owner(t->t));
 	ev_periodic_stop(EV_A_ w);
+	if (UNLIKELY(t->nsim)) {
+		/* children of a previous version of the task */
+		orphan_chlds(t);
+	}
 	free_task(t);
 	return;
 }
@@ -2573,6 +2577,8 @@ task update from user %d for task from user %d failed: permission denied",
 		free(deconst(res->dflt_cred.wd));
 		free(deconst(res->dflt_cred.sh));
 		free_echs_task(res->t);
+		/* the new stream has never been run */
+		res->nrun = 0U;
 	} else if (UNLIKELY((res = make_task(t->oid)) == NULL)) {
 		ECHS_ERR_LOG("cannot submit new task");
 		return -1;
